@@ -929,6 +929,13 @@ spif_dlinked_list_map_remove(spif_dlinked_list_t self, spif_obj_t item)
             return (spif_obj_t) NULL;
         }
     }
+    /* Keep the back links and the tail pointer in step with the forward chain. */
+    if (!SPIF_DLINKED_LIST_ITEM_ISNULL(tmp->next)) {
+        tmp->next->prev = tmp->prev;
+    }
+    if (tmp == self->tail) {
+        self->tail = tmp->prev;
+    }
     item = tmp->data;
     tmp->data = (spif_obj_t) NULL;
     spif_dlinked_list_item_del(tmp);
@@ -992,11 +999,14 @@ spif_dlinked_list_reverse(spif_dlinked_list_t self)
     spif_dlinked_list_item_t current, tmp;
 
     ASSERT_RVAL(!SPIF_LIST_ISNULL(self), FALSE);
+    tmp = (spif_dlinked_list_item_t) NULL;
     for (current = self->head; current; ) {
         tmp = current;
         current = current->next;
         SWAP(tmp->prev, tmp->next);
     }
+    /* The old head is the new tail, and vice versa. */
+    self->tail = self->head;
     self->head = tmp;
     return TRUE;
 }
